@@ -691,6 +691,10 @@ def run(prog, rep, tier):
     rep.rule('LOOP-stale-read', 'no per-item variable is read in a loop before the iteration assigns '
              'it when its only other bindings are inside other loops')
     check_stale_loop_reads(prog, rep, ['tenpy/models/model.py', 'tenpy/networks/terms.py'])
+    from .c11 import check_hcflag_mpo
+    rep.rule('HCFLAG-mpo', 'every MPO method that builds another MPO from the W tensors hands on '
+             'explicit_plus_hc (a segment / copy without it is half of the Hamiltonian)')
+    check_hcflag_mpo(prog, rep)
     rep.rule('EXPORT-op-string', 'consumers of CouplingTerms.to_TermList() (operator strings dropped) '
              'do not put the identity between the operators')
     check_export_op_string(prog, rep)
